@@ -268,6 +268,20 @@ type LocalAnon struct {
 }
 `
 
+// SemRuntime is part of every generated package: call trace and fault injection
+// used by the instrumented helper functions (inert unless a driver sets them).
+const SemRuntime = `package pk
+
+var SemTrace []string
+var SemFail = map[string]error{}
+var SemOnHook func(name string, vals ...interface{})
+
+func semEnter(name string) error {
+	SemTrace = append(SemTrace, name)
+	return SemFail[name]
+}
+`
+
 // Method is one method of a converter interface.
 type Method struct {
 	Name      string
@@ -328,6 +342,7 @@ type Options struct {
 	Toggles         bool
 	NoUnsupportedRe bool
 	WellFormed      bool // only notations that are valid and name functions of an acceptable shape
+	ErrorBias       bool // prefer error results, error-returning converters and getters (C07)
 }
 
 // DefaultOptions is the general-purpose mix.
@@ -447,7 +462,7 @@ func (g *genState) genStructPair(imported bool) (src, dst string, fields []Field
 		case "errgetter":
 			fld := "g" + sname
 			sfields = append(sfields, fmt.Sprintf("\t%s %s", fld, p.Src))
-			methods = append(methods, fmt.Sprintf("func (s %s) %s() (%s, error) { return s.%s, nil }", src, sname, p.Src, fld))
+			methods = append(methods, fmt.Sprintf("func (s %s) %s() (%s, error) {\n\tif e := semEnter(\"%s.%s\"); e != nil {\n\t\tvar z %s\n\t\treturn z, e\n\t}\n\treturn s.%s, nil\n}", src, sname, p.Src, src, sname, p.Src, fld))
 			usedSrc[strings.ToLower(sname)] = true
 		}
 	}
@@ -455,7 +470,7 @@ func (g *genState) genStructPair(imported bool) (src, dst string, fields []Field
 	sfields = append(sfields, "\tSpareInt int", "\tSpareStr string", "\tNest *Inner1", "\tNestV Inner1", "\tWho ext.Person", "\tWhoP *ext.Person")
 	methods = append(methods,
 		fmt.Sprintf("func (s %s) Calc() int { return s.SpareInt * 3 }", src),
-		fmt.Sprintf("func (s %s) Risky() (string, error) { return s.SpareStr, nil }", src),
+		fmt.Sprintf("func (s %s) Risky() (string, error) {\n\tif e := semEnter(\"%s.Risky\"); e != nil {\n\t\treturn \"\", e\n\t}\n\treturn s.SpareStr, nil\n}", src, src),
 		fmt.Sprintf("func (s %s) WithArg(p int) int { return p }", src),
 		fmt.Sprintf("func (s *%s) PtrCalc() int { return s.SpareInt + 1 }", src))
 	if g.rng.Intn(6) == 0 {
@@ -485,7 +500,7 @@ func (g *genState) genMethod(idx int) Method {
 	if g.rng.Intn(2) == 0 {
 		m.SrcName, m.DstName = g.pick([]string{"src", "s", "in", "from", "e", "i"}), g.pick([]string{"dst", "d", "out", "to", "res"})
 	}
-	m.RetErr = g.rng.Intn(3) == 0
+	m.RetErr = g.rng.Intn(3) == 0 || g.opt.ErrorBias
 	if g.opt.Styles && g.rng.Intn(3) == 0 {
 		n := 1 + g.rng.Intn(3)
 		argTypes := []string{"int", "string", "*Leaf", "ext.Status", "[]string", "ext.Person", "Inner1"}
@@ -550,12 +565,18 @@ func (g *genState) genMethod(idx int) Method {
 			m.Features = append(m.Features, "skip-re")
 		case 2:
 			srcs := []string{"SpareInt", "SpareStr", "Calc()", "Risky()", "Nest.A", "NestV.B", "Who.Name()", "Who.Nick", "WhoP.Age()", "NestV.L.W", "Nope", "Who.secret()", "PtrCalc()", "WithArg()", "NestV.C.String()", "Who.Score()"}
+			if g.opt.ErrorBias {
+				srcs = []string{"Risky()", "Risky()", "SpareStr", "Calc()"}
+			}
 			m.Notations = append(m.Notations, ":map "+g.pick(srcs)+" "+path)
 			m.Features = append(m.Features, "map")
 		case 3:
 			convs := []string{"ext.Itoa", "ext.Atoi", "strconv.Itoa", "localConv", "localConvErr", "localPtrConv", "ext.lower", "ext.Two", "ext.NoResult", "ext.FuncVar", "ext.NotFunc", "nosuch", "ext.Three", "ext.PtrLen", "ext.StatusOf"}
 			if g.opt.WellFormed {
 				convs = []string{"ext.Itoa", "ext.Atoi", "strconv.Itoa", "localConv", "localConvErr", "localPtrConv", "ext.PtrLen", "ext.StatusOf"}
+			}
+			if g.opt.ErrorBias {
+				convs = []string{"localConvErr", "localConvErr2", "localConvErr3", "localConv"}
 			}
 			srcs := []string{"SpareInt", "SpareStr", "Calc()", path, "NestV.A", "Nest.B"}
 			m.Notations = append(m.Notations, ":conv "+g.pick(convs)+" "+g.pick(srcs)+" "+path)
@@ -695,7 +716,21 @@ func (g *genState) hook(m *Method, kind string) string {
 		g.feat("hook-bad-result")
 	}
 	g.feat("hook-" + kind)
-	fmt.Fprintf(&g.types, "\nfunc %s(%s)%s { %s }\n", name, strings.Join(params, ", "), res, body)
+	// instrumented body: report the operands to the driver, then fail on command
+	var pnames []string
+	for _, p := range params {
+		pnames = append(pnames, strings.Fields(p)[0])
+	}
+	inst := fmt.Sprintf("if SemOnHook != nil {\n\t\tSemOnHook(%q, %s)\n\t}\n\t", name, strings.Join(pnames, ", "))
+	switch res {
+	case " error":
+		body = inst + fmt.Sprintf("return semEnter(%q)", name)
+	case "":
+		body = inst + fmt.Sprintf("_ = semEnter(%q)", name)
+	default:
+		body = inst + body
+	}
+	fmt.Fprintf(&g.types, "\nfunc %s(%s)%s {\n\t%s\n}\n", name, strings.Join(params, ", "), res, body)
 	return ":" + kind + " " + name
 }
 
@@ -789,10 +824,28 @@ func Generate(seed int64, index int, opt Options) *Case {
 	c.Files["ext/ext.go"] = ExtSrc
 	c.Files["ext2/ext2.go"] = Ext2Src
 	helpers := `
-func localConv(i int) string             { return strconv.Itoa(i) }
-func localConvErr(i int) (string, error) { return strconv.Itoa(i), nil }
-func localPtrConv(i *int) string         { return strconv.Itoa(*i) }
+func localConv(i int) string { return strconv.Itoa(i) }
+func localConvErr(i int) (string, error) {
+	if e := semEnter("localConvErr"); e != nil {
+		return "", e
+	}
+	return strconv.Itoa(i), nil
+}
+func localPtrConv(i *int) string { return strconv.Itoa(*i) }
+func localConvErr2(i int) (string, error) {
+	if e := semEnter("localConvErr2"); e != nil {
+		return "", e
+	}
+	return strconv.Itoa(i + 2), nil
+}
+func localConvErr3(i int) (int, error) {
+	if e := semEnter("localConvErr3"); e != nil {
+		return 0, e
+	}
+	return i + 3, nil
+}
 `
+	c.Files["pk/semrt.go"] = SemRuntime
 	c.Files["pk/types.go"] = LocalTypes + helpers + g.types.String()
 	c.Files["pk/setup.go"] = renderSetup(rng, c, opt)
 	return c
